@@ -30,6 +30,18 @@ pub fn sig_complete<CS: BbsCiphersuite>(name: &str, out: &mut Vec<Value>, thorou
 where
     CS::Expander: for<'a> ExpandMsg<'a>,
 {
+    // key material of exactly 32 octets (the minimum), with and without key_info / key_dst: a key pair that signs and verifies
+    for (kn, ki, kd) in [("plain", None, None), ("info", Some(b"key-info".to_vec()), None), ("info+dst", Some(b"key-info".to_vec()), Some(b"custom-key-dst_".to_vec()))] {
+        let o = guard(move || {
+            let k = match KP::<CS>::generate(&[7u8; 32], ki.as_deref(), kd.as_deref()) { Ok(k) => k, Err(e) => return format!("err:generate:{e:?}") };
+            let m = msgs(2);
+            match Sig::<CS>::sign(Some(&m), k.private_key(), k.public_key(), None) {
+                Ok(s) => match s.verify(k.public_key(), Some(&m), None) { Ok(()) => "ok:accepted".to_string(), Err(e) => format!("err:verify:{e:?}") },
+                Err(e) => format!("err:sign:{e:?}"),
+            }
+        });
+        push(out, format!("{name}-key-material-32-octets-{kn}"), "KeyPair::generate(32 octets) + sign + verify", vec![kn.to_string()], o, "expect-ok");
+    }
     let kp = KP::<CS>::generate(IKM, None, None).unwrap();
     let ls: Vec<usize> = if thorough { vec![0, 1, 2, 3, 5, 11, 31, 32, 33, 64, 70, 100, 200] } else { vec![0, 1, 2, 5, 31, 32, 33, 70] };
     for l in ls {
